@@ -100,7 +100,13 @@ impl<'d, 'b> G<'d, 'b> {
             };
         }
         let dd = depth - 1;
-        match self.d.below(24) {
+        match self.d.below(26) {
+            // well-known wrapper names are types like any other: their arguments are uses
+            24 => {
+                let w = *self.d.pick(&["PhantomData", "::core::marker::PhantomData", "my::PhantomData", "Option", "Box", "std::marker::PhantomData"]);
+                format!("{}<{}>", w, self.ty_f(dd, "well-known wrapper"))
+            }
+            25 => format!("PhantomData<fn({}) -> {}>", self.ty_f(dd, "well-known wrapper"), self.ty(dd)),
             // a projection whose later segment carries generic arguments (GAT): both the leading parameter and
             // whatever the arguments mention are used
             22 => {
